@@ -18,7 +18,7 @@ type Expr struct {
 }
 
 type Stmt struct {
-	Kind string // assign, inc, dec, if, write
+	Kind string // assign, inc, dec, if, write, shadow (a bare block that re-declares variable Var and runs Then)
 	Var  int
 	Out  int
 	E    *Expr
@@ -42,8 +42,10 @@ type Program struct {
 }
 
 type gen struct {
-	t *simrt.Tape
-	p *Program
+	t      *simrt.Tape
+	p      *Program
+	shadow bool
+	nest   int
 }
 
 // expr draws an expression. bondgo has no parenthesised expressions, so only
@@ -83,6 +85,13 @@ func (g *gen) stmts(n, depth int, inLoop bool) []Stmt {
 			out = append(out, Stmt{Kind: "inc", Var: g.t.Draw(len(g.p.Vars))})
 		case k == 4:
 			out = append(out, Stmt{Kind: "dec", Var: g.t.Draw(len(g.p.Vars))})
+		case k == 6 && g.shadow && depth >= 0 && g.nest < 2:
+			// a nested block that declares a variable with the name of an outer one (legal Go shadowing)
+			g.nest++
+			s := Stmt{Kind: "shadow", Var: g.t.Draw(len(g.p.Vars))}
+			s.Then = g.stmts(1+g.t.Draw(3), depth-1, inLoop)
+			g.nest--
+			out = append(out, s)
 		case k == 5 && depth > 0:
 			s := Stmt{Kind: "if", A: g.expr(1), B: g.expr(1)}
 			s.Then = g.stmts(1+g.t.Draw(2), depth-1, inLoop)
@@ -119,6 +128,7 @@ func Generate(t *simrt.Tape) *Program {
 		p.Vars = append(p.Vars, v)
 	}
 	g := &gen{t: t, p: p}
+	g.shadow = t.Draw(3) == 1
 	withIf := free && t.Draw(2) == 1
 	depth := 0
 	if withIf {
@@ -157,6 +167,10 @@ func (p *Program) stmtsSrc(b *strings.Builder, ss []Stmt, ind string) {
 			fmt.Fprintf(b, "%s%s--\n", ind, p.Vars[s.Var].Name)
 		case "write":
 			fmt.Fprintf(b, "%sbondgo.IOWrite(out%d, %s)\n", ind, s.Out, p.exprSrc(s.E))
+		case "shadow":
+			fmt.Fprintf(b, "%s{\n%s\tvar %s %s\n", ind, ind, p.Vars[s.Var].Name, p.typ())
+			p.stmtsSrc(b, s.Then, ind+"\t")
+			fmt.Fprintf(b, "%s}\n", ind)
 		case "if":
 			fmt.Fprintf(b, "%sif %s == %s {\n", ind, p.exprSrc(s.A), p.exprSrc(s.B))
 			p.stmtsSrc(b, s.Then, ind+"\t")
@@ -225,6 +239,11 @@ func (s *evalState) run(ss []Stmt, n int) {
 			s.vars[st.Var] = (s.vars[st.Var] - 1) & s.mask
 		case "write":
 			s.out = append(s.out, [2]uint64{uint64(st.Out), s.expr(st.E)})
+		case "shadow":
+			outer := s.vars[st.Var]
+			s.vars[st.Var] = 0 // the inner variable starts at its zero value
+			s.run(st.Then, n)
+			s.vars[st.Var] = outer
 		case "if":
 			if s.expr(st.A) == s.expr(st.B) {
 				s.run(st.Then, n)
